@@ -23,8 +23,18 @@ All statements are about the executable model `Dino.Units` (tied to `dinosaur/sc
   truncation used before commit 35952ac loses 27 s (negative witness on the real doubles).
 * T18.4 datetimes at minute resolution survive the round trip through model time under the same
   rounding model (seven roundings) for `|minutes| ≤ 10¹²`.
-* T18.5 orbital phases are reduced to `[0, 2π)`, congruent to `ref + rate · t`, consistent with
-  elapsed time.
+* T18.5 over the reals (any ordered field with a floor) orbital phases are reduced to `[0, 2π)`,
+  congruent to `ref + rate · t`, consistent with elapsed time.  In double arithmetic the half-open
+  interval is not kept: `reduceFl_mem` gives `[-ε, 2π + ε)`, `ε ≈ 2⁻⁵³ (|x| + 2 · 2π)` for the unreduced
+  phase `x`, with negative witnesses on the real doubles (`timeToOrbitalFl_fl53_exceeds_period`,
+  `reduceFl_fl53_closed_end`).
+
+Side conditions are explicit wherever a totalised operation of a field (`x / 0 = 0`, `0⁻¹ = 0`) could
+otherwise carry a statement: `ScaleOK` (non-zero scales), non-zero conversion factors, `m₂ ≠ 0` for a
+quotient, `m ≠ 0` for a negative power; what the model returns at the excluded points is recorded by
+`nondim_div_excluded`, `nondim_pow_excluded`, `factor_add_scaleOK_necessary`, and what the code does
+there by the harness.  Exponents of dimensions are integers (`List ℤ`); the code also accepts
+fractional exponents (`m ** 0.5`), which are outside the model.
 -/
 namespace Dino.C18
 open Dino.Units
@@ -99,8 +109,11 @@ theorem factor_add {sc : List (Option K)} (hsc : ScaleOK sc) {a b : List ℤ} {f
     refine Finset.prod_congr rfl fun i _ => ?_
     rw [dget_dadd, zpow_add₀ (scaleAt_ne_zero hsc i)]
 
-/-- `factor (n • d) = (factor d) ^ n` for every integer `n` -/
+/-- `factor (n • d) = (factor d) ^ n` for every integer `n`; for a negative `n` the scales must be
+non-zero (`_hsc`: at a zero scale `f = 0` and the statement would hold only through `0⁻¹ = 0`, while
+the code raises `ZeroDivisionError`) -/
 theorem factor_zsmul {sc : List (Option K)} {d : List ℤ} {f : K} (n : ℤ)
+    (_hsc : ScaleOK sc ∨ 0 ≤ n)
     (hd : factor sc d = some f) : factor sc (dsmul n d) = some (f ^ n) := by
   have hl : (dsmul n d).length = d.length := by simp [dsmul]
   rw [factor_eq_some_iff' sc _ _ le_rfl] at hd
@@ -116,10 +129,10 @@ theorem factor_zsmul {sc : List (Option K)} {d : List ℤ} {f : K} (n : ℤ)
     refine Finset.prod_congr rfl fun i _ => ?_
     rw [dget_dsmul, mul_comm, zpow_mul]
 
-/-- `factor (-d) = (factor d)⁻¹` -/
-theorem factor_neg {sc : List (Option K)} {d : List ℤ} {f : K}
+/-- `factor (-d) = (factor d)⁻¹` (non-zero scales, so that `f ≠ 0`) -/
+theorem factor_neg {sc : List (Option K)} (hsc : ScaleOK sc) {d : List ℤ} {f : K}
     (hd : factor sc d = some f) : factor sc (dneg d) = some f⁻¹ := by
-  simpa [dneg] using factor_zsmul (-1) hd
+  simpa [dneg] using factor_zsmul (-1) (Or.inl hsc) hd
 
 /-- with non-zero scales the factor is non-zero -/
 theorem factor_ne_zero {sc : List (Option K)} (hsc : ScaleOK sc) {d : List ℤ} {f : K}
@@ -179,23 +192,37 @@ theorem nondim_mul {sc : List (Option K)} (hsc : ScaleOK sc) (u₁ u₂ : UnitV 
   obtain ⟨f₂, hf₂, rfl⟩ := h₂
   exact ⟨f₁ * f₂, factor_add hsc hf₁ hf₂, by simp only [UnitV.mul]; ring⟩
 
-/-- `nondim(q₁ / q₂) = nondim(q₁) / nondim(q₂)` -/
+/-- `nondim(q₁ / q₂) = nondim(q₁) / nondim(q₂)` for a divisor `q₂ = m₂ · u₂` that is not zero
+(`m₂ ≠ 0`, `u₂.conv ≠ 0`; the scales are non-zero by `ScaleOK`): then `nondim(q₂) ≠ 0` as well, so no
+division of the statement is a totalised `x / 0 = 0`.  At `m₂ = 0` the code raises
+`ZeroDivisionError` (Python scalars) or returns `inf` (arrays); see `nondim_div_excluded`. -/
 theorem nondim_div {sc : List (Option K)} (hsc : ScaleOK sc) (u₁ u₂ : UnitV K) (m₁ m₂ v₁ v₂ : K)
+    (hc₂ : u₂.conv ≠ 0) (hm₂ : m₂ ≠ 0)
     (h₁ : nondim sc u₁ m₁ = some v₁) (h₂ : nondim sc u₂ m₂ = some v₂) :
-    nondim sc (u₁.div u₂) (m₁ / m₂) = some (v₁ / v₂) := by
+    nondim sc (u₁.div u₂) (m₁ / m₂) = some (v₁ / v₂) ∧ v₂ ≠ 0 := by
   rw [nondim_eq_some_iff] at *
   obtain ⟨f₁, hf₁, rfl⟩ := h₁
   obtain ⟨f₂, hf₂, rfl⟩ := h₂
-  refine ⟨f₁ * f₂⁻¹, factor_add hsc hf₁ (factor_neg hf₂), ?_⟩
-  simp only [UnitV.div, div_eq_mul_inv, mul_inv, inv_inv]
-  ring
+  have hf₂0 := factor_ne_zero hsc hf₂
+  refine ⟨⟨f₁ * f₂⁻¹, factor_add hsc hf₁ (factor_neg hsc hf₂), ?_⟩,
+    div_ne_zero (mul_ne_zero hm₂ hc₂) hf₂0⟩
+  simp only [UnitV.div]
+  field_simp
 
-/-- `nondim(q ^ n) = nondim(q) ^ n` for every integer `n` -/
-theorem nondim_pow (sc : List (Option K)) (u : UnitV K) (m v : K) (n : ℤ)
-    (h : nondim sc u m = some v) : nondim sc (u.pow n) (m ^ n) = some (v ^ n) := by
+/-- `nondim(q ^ n) = nondim(q) ^ n` for every integer `n`, for non-zero scales and a unit with a
+non-zero conversion factor; a negative power needs `m ≠ 0` (then `nondim(q) ≠ 0`), so that no inverse
+of the statement is a totalised `0⁻¹ = 0`.  At `m = 0`, `n < 0` the code raises `ZeroDivisionError`
+(Python scalars) or returns `inf` (arrays); see `nondim_pow_excluded`. -/
+theorem nondim_pow {sc : List (Option K)} (hsc : ScaleOK sc) (u : UnitV K) (m v : K) (n : ℤ)
+    (hc : u.conv ≠ 0) (hm : m ≠ 0 ∨ 0 ≤ n)
+    (h : nondim sc u m = some v) :
+    nondim sc (u.pow n) (m ^ n) = some (v ^ n) ∧ (m ≠ 0 → v ≠ 0) := by
+  have _ := hm
   rw [nondim_eq_some_iff] at *
   obtain ⟨f, hf, rfl⟩ := h
-  exact ⟨f ^ n, factor_zsmul n hf, by simp only [UnitV.pow, zpow_eq, div_zpow, mul_zpow]⟩
+  have hf0 := factor_ne_zero hsc hf
+  exact ⟨⟨f ^ n, factor_zsmul n (Or.inl hsc) hf, by simp only [UnitV.pow, zpow_eq, div_zpow, mul_zpow]⟩,
+    fun hm0 => div_ne_zero (mul_ne_zero hm0 hc) hf0⟩
 
 /-- `nondim(a · q) = a · nondim(q)` for a pure number `a` -/
 theorem nondim_smul (sc : List (Option K)) (u : UnitV K) (a m v : K)
@@ -417,11 +444,6 @@ def sc0 : List (Option ℚ) := [some 2, none, some (3 / 7)]
 /-- `(5/2 · base)² · (7 · base)`, dimension `length² · time⁻¹` -/
 def u0 : UnitV ℚ := compound [(⟨5 / 2, [1, 0, -1]⟩, 2), (⟨7, [0, 0, 1]⟩, 1)]
 
-example : ScaleOK sc0 := by
-  intro q hq
-  simp only [sc0, List.mem_cons, Option.some.injEq, reduceCtorEq, List.not_mem_nil, or_false,
-    false_or] at hq
-  rcases hq with rfl | rfl <;> norm_num
 example : u0.conv = 175 / 4 ∧ u0.dim = [2, 0, -1] := by decide +kernel
 example : covers sc0 u0.dim = true := by decide +kernel
 example : factor sc0 u0.dim = some (28 / 3) := by decide +kernel
@@ -431,6 +453,59 @@ example : factor sc0 [0, 1] = none := by decide +kernel
 example : mkScale 3 [((2 : ℚ), [1, 0, 0]), (3 / 7, [0, 0, 1])] = some sc0 := by decide +kernel
 example : mkScale 3 [((2 : ℚ), [1, 0, 0]), (5, [1, 0, 0])] = none := by decide +kernel
 example : mkScale 3 [((2 : ℚ), [1, 0, -1])] = none := by decide +kernel
+
+theorem scaleOK_sc0 : ScaleOK sc0 := by
+  intro q hq
+  simp only [sc0, List.mem_cons, Option.some.injEq, reduceCtorEq, List.not_mem_nil, or_false,
+    false_or] at hq
+  rcases hq with rfl | rfl <;> norm_num
+
+/-- a second unit: `(3/2 · base) · (7 · base)⁻²`, dimension `length · time⁻²` -/
+def u1 : UnitV ℚ := compound [(⟨3 / 2, [1]⟩, 1), (⟨7, [0, 0, 1]⟩, -2)]
+
+example : u1.conv = 3 / 98 ∧ u1.dim = [1, 0, -2] := by decide +kernel
+example : nondim sc0 u1 (-5) = some (-135 / 9604) := by decide +kernel
+
+/-- `nondim_div` on concrete non-trivial objects: `(11/3 u0) / (-5 u1)` -/
+example : nondim sc0 (u0.div u1) ((11 / 3) / (-5)) = some ((275 / 16) / (-135 / 9604)) ∧
+    (-135 / 9604 : ℚ) ≠ 0 :=
+  nondim_div scaleOK_sc0 u0 u1 (11 / 3) (-5) (275 / 16) (-135 / 9604) (by decide +kernel) (by norm_num)
+    (by decide +kernel) (by decide +kernel)
+/-- … and the value is what the model computes -/
+example : nondim sc0 (u0.div u1) ((11 / 3) / (-5)) = some (-132055 / 108) := by decide +kernel
+
+/-- `nondim_pow` with a negative power of a non-zero quantity, and with a positive power of zero -/
+example : nondim sc0 (u0.pow (-2)) ((11 / 3 : ℚ) ^ (-2 : ℤ)) = some ((275 / 16 : ℚ) ^ (-2 : ℤ)) :=
+  (nondim_pow scaleOK_sc0 u0 (11 / 3) (275 / 16) (-2) (by decide +kernel) (Or.inl (by norm_num))
+    (by decide +kernel)).1
+example : nondim sc0 (u0.pow 3) ((0 : ℚ) ^ (3 : ℤ)) = some ((0 : ℚ) ^ (3 : ℤ)) :=
+  (nondim_pow scaleOK_sc0 u0 0 0 3 (by decide +kernel) (Or.inr (by norm_num)) (by decide +kernel)).1
+
+/-- **excluded point of `nondim_div`** (`m₂ = 0`): the *model* over a field returns 0 there, through
+`x / 0 = 0` on both sides; this is not what the code does (`ZeroDivisionError` / `inf`, recorded by the
+probe), which is why the theorem carries `m₂ ≠ 0`. -/
+theorem nondim_div_excluded :
+    nondim sc0 u0 0 = some 0 ∧
+    nondim sc0 (u0.div u0) ((11 / 3 : ℚ) / 0) = some 0 ∧ ((275 / 16 : ℚ) / 0) = 0 := by
+  decide +kernel
+
+/-- **excluded point of `nondim_pow`** (`m = 0`, `n < 0`): `0⁻¹ = 0` on both sides in the model, while
+the code raises / returns `inf`. -/
+theorem nondim_pow_excluded :
+    nondim sc0 (u0.pow (-1)) ((0 : ℚ) ^ (-1 : ℤ)) = some 0 ∧ ((0 : ℚ) ^ (-1 : ℤ)) = 0 := by
+  refine ⟨?_, by norm_num⟩
+  have : ((0 : ℚ) ^ (-1 : ℤ)) = 0 := by norm_num
+  rw [this]
+  decide +kernel
+
+/-- **`ScaleOK` is necessary for `factor_add`** (and the only reason `factor_neg` would hold at a zero
+scale is `0⁻¹ = 0`): with the scale `0` for the first dimension, `factor [1] = 0`,
+`factor [-1] = 0⁻¹ = 0`, but `factor ([1] + [-1]) = 1 ≠ 0 · 0`. -/
+theorem factor_add_scaleOK_necessary :
+    factor [some (0 : ℚ)] [1] = some 0 ∧ factor [some (0 : ℚ)] (dneg [1]) = some 0 ∧
+    factor [some (0 : ℚ)] (dadd [1] (dneg [1])) = some 1 ∧
+    factor [some (0 : ℚ)] (dadd [1] (dneg [1])) ≠ some (0 * 0) := by
+  decide +kernel
 
 /-! ### non-vacuity of the affine part: 25 °C = 298.15 K = 77 °F under a temperature scale of 32 K -/
 
@@ -627,12 +702,24 @@ theorem datetime_minutes_roundtrip {fl : ℚ → ℚ} (hfl : RoundingModel fl) (
   refine Rel.round_eq b2 (lt_of_le_of_lt ?_ E7_bound)
   exact mul_le_mul_of_nonneg_left hmq (E_nonneg 7)
 
+/-- **T18.4** a stamp that is a whole number `m` of minutes from the reference (`cnt = refc + m * upm`,
+`upm` counts per minute, `|m| ≤ 10¹²`) survives `nondim_time_to_datetime64 ∘ datetime64_to_nondim_time`.
+Any other stamp is rounded to whole minutes *from the reference*: `datetime_roundtrip_off_minute`. -/
 theorem datetime_roundtrip {fl : ℚ → ℚ} (hfl : RoundingModel fl) (T : ℚ) (hT : T ≠ 0)
     (upm : ℕ) (hupm : 0 < upm) (refc m : ℤ) (hb : |m| ≤ 10 ^ 12) :
     dtRoundtrip fl T upm refc (refc + m * upm) = refc + m * upm := by
   unfold dtRoundtrip
   rw [datetime_minutes_roundtrip hfl T hT (60 * upm) (by omega) (refc + m * upm - refc) m
     (by push_cast; ring) hb]
+
+/-- **negative witness: `datetime_roundtrip` needs stamps a whole number of minutes from the
+reference.**  With a reference at 00:00:30 (count 30 in seconds) the stamp 00:01:00 (count 60, half a
+minute later) comes back as 00:00:30 and 00:02:00 (count 120) as 00:02:30: `nondim_time_to_datetime64`
+rounds the elapsed time to whole minutes (half to even) *from the reference*. -/
+theorem datetime_roundtrip_off_minute :
+    dtRoundtrip fl53 T0 60 30 60 = 30 ∧ dtRoundtrip fl53 T0 60 30 120 = 150 ∧
+    dtRoundtrip fl53 T0 60 30 90 = 90 := by
+  decide +kernel
 
 /-! ## T18.5 orbital phases -/
 
@@ -706,6 +793,100 @@ theorem orbital_phase_real (ref rate t : ℝ) :
   refine ⟨timeToOrbital_mem_Ico _ _ _ _ hp, ⟨k, hk⟩, ?_, ?_⟩
   · unfold timeToOrbital; rw [hk, Real.cos_sub_int_mul_two_pi]
   · unfold timeToOrbital; rw [hk, Real.sin_sub_int_mul_two_pi]
+
+/-! ### T18.5 in double arithmetic: the half-open interval is *not* kept
+
+`reduceFl` / `timeToOrbitalFl` are the reduction executed operation by operation on doubles (exact
+floor, rounded product, rounded difference; compared bit for bit with the eager implementation by the
+harness).  Under the rounding model the reduced phase stays within `ε = u (|x| (1+u) + p (2+u))`,
+`u = 2⁻⁵³`, of the exact reduced phase, hence in `[-ε, p + ε)` — and this cannot be improved to
+`[0, p)`: `timeToOrbitalFl_fl53_exceeds_period` is a realistic model time whose synodic phase comes out
+8 ulp *above* `fl(2π)`, `reduceFl_fl53_closed_end` a tiny negative argument that is reduced to `fl(2π)`
+itself. -/
+
+theorem reduceFl_id (p x : ℚ) : reduceFl id p x = reduce floorK p x := rfl
+
+/-- the rounded reduction is within `u ((1+u)(|x|+p) + p)` of the exact one -/
+theorem reduceFl_close {fl : ℚ → ℚ} (hfl : RoundingModel fl) (p x : ℚ) (hp : 0 < p) :
+    |reduceFl fl p x - reduce floorK p x| ≤ u53 * ((1 + u53) * (|x| + p) + p) := by
+  have hmem := reduce_mem_Ico p x hp
+  rw [reduce_eq] at hmem ⊢
+  unfold reduceFl
+  rw [ratFloor_eq]
+  set Q : ℚ := ((⌊x / p⌋ : ℤ) : ℚ) * p with hQ
+  have hu := u53_pos
+  have hQabs : |Q| ≤ |x| + p := by
+    have h1 : Q = x - (x - Q) := by ring
+    rw [h1]
+    refine (abs_sub _ _).trans ?_
+    have : |x - Q| ≤ p := by rw [abs_of_nonneg hmem.1]; exact hmem.2.le
+    linarith
+  have ha : |fl Q - Q| ≤ u53 * |Q| := hfl.relErr Q
+  have hr : |fl (x - fl Q) - (x - fl Q)| ≤ u53 * |x - fl Q| := hfl.relErr _
+  have hr2 : |x - fl Q| ≤ p + u53 * |Q| := by
+    have h1 : x - fl Q = (x - Q) - (fl Q - Q) := by ring
+    rw [h1]
+    refine (abs_sub _ _).trans ?_
+    have : |x - Q| ≤ p := by rw [abs_of_nonneg hmem.1]; exact hmem.2.le
+    linarith
+  have h3 : fl (x - fl Q) - (x - Q) = (fl (x - fl Q) - (x - fl Q)) - (fl Q - Q) := by ring
+  rw [h3]
+  refine (abs_sub _ _).trans ?_
+  have h4 : u53 * |x - fl Q| ≤ u53 * (p + u53 * |Q|) := mul_le_mul_of_nonneg_left hr2 hu.le
+  have h5 : u53 * |Q| ≤ u53 * (|x| + p) := mul_le_mul_of_nonneg_left hQabs hu.le
+  have h6 : u53 * (u53 * |Q|) ≤ u53 * (u53 * (|x| + p)) := mul_le_mul_of_nonneg_left h5 hu.le
+  nlinarith
+
+/-- **range of the reduced phase in double arithmetic**: `[-ε, p + ε)` with
+`ε = u ((1+u)(|x|+p) + p)`, `u = 2⁻⁵³` -/
+theorem reduceFl_mem {fl : ℚ → ℚ} (hfl : RoundingModel fl) (p x : ℚ) (hp : 0 < p) :
+    -(u53 * ((1 + u53) * (|x| + p) + p)) ≤ reduceFl fl p x ∧
+    reduceFl fl p x < p + u53 * ((1 + u53) * (|x| + p) + p) := by
+  have h := abs_le.1 (reduceFl_close hfl p x hp)
+  have hmem := reduce_mem_Ico p x hp
+  constructor
+  · linarith [h.1, hmem.1]
+  · linarith [h.2, hmem.2]
+
+/-- the same for `time_to_orbital_time` on doubles, with `x = fl(ref + fl(rate · t))` the unreduced
+phase as the code computes it -/
+theorem timeToOrbitalFl_mem {fl : ℚ → ℚ} (hfl : RoundingModel fl) (p ref rate t : ℚ) (hp : 0 < p) :
+    -(u53 * ((1 + u53) * (|fl (ref + fl (rate * t))| + p) + p)) ≤ timeToOrbitalFl fl p ref rate t ∧
+    timeToOrbitalFl fl p ref rate t < p + u53 * ((1 + u53) * (|fl (ref + fl (rate * t))| + p) + p) :=
+  reduceFl_mem hfl p _ hp
+
+/-- in exact arithmetic it is the reduction of T18.5 -/
+theorem timeToOrbitalFl_id (p ref rate t : ℚ) :
+    timeToOrbitalFl id p ref rate t = timeToOrbital floorK p ref rate t := rfl
+
+/-- the double `2 * jnp.pi` -/
+def twoPi64 : ℚ := 884279719003555 / 140737488355328
+/-- the synodic rate of `SolarRadiation` under `DEFAULT_SCALE` (`2π / day`), as the double it is -/
+def rateS : ℚ := 8982748410267517 / 18014398509481984
+/-- model time of 1979-01-24T00:00 with the reference 1979-01-01T00:00 under `DEFAULT_SCALE`
+(`289.813248`, 23 days), as the double it is -/
+def t23 : ℚ := 5098448576952473 / 17592186044416
+
+/-- **negative witness on the real doubles** (reference at midnight, so the reference phase is 0): the
+synodic phase of day 23 is `fl(2π) + 8 ulp > 2π` in double arithmetic, while the exact reduction of the
+same unreduced double is below the period. -/
+theorem timeToOrbitalFl_fl53_exceeds_period :
+    fl53 (0 + fl53 (rateS * t23)) = 5084608384270441 / 35184372088832 ∧
+    timeToOrbitalFl fl53 twoPi64 0 rateS t23 = 221069929750889 / 35184372088832 ∧
+    twoPi64 < timeToOrbitalFl fl53 twoPi64 0 rateS t23 ∧
+    timeToOrbitalFl fl53 twoPi64 0 rateS t23 - twoPi64 = 8 * (1 / 2 ^ 50) ∧
+    reduceFl id twoPi64 (5084608384270441 / 35184372088832) < twoPi64 := by
+  decide +kernel
+
+/-- **negative witness**: a tiny negative unreduced phase is reduced to `fl(2π)` itself (closed end) -/
+theorem reduceFl_fl53_closed_end :
+    reduceFl fl53 twoPi64 (-1 / 10 ^ 20) = twoPi64 ∧ reduce floorK twoPi64 (-1 / 10 ^ 20 : ℚ) < twoPi64 := by
+  decide +kernel
+
+/-- non-vacuity: the bound applied to the executed rounding function on the witness -/
+example : timeToOrbitalFl fl53 twoPi64 0 rateS t23 <
+    twoPi64 + u53 * ((1 + u53) * (|fl53 (0 + fl53 (rateS * t23))| + twoPi64) + twoPi64) :=
+  (timeToOrbitalFl_mem roundingModel_fl53 twoPi64 0 rateS t23 (by norm_num [twoPi64])).2
 
 /-! ### calendar -/
 
